@@ -9,13 +9,18 @@ OpSeq == <<"co_count", "co_sum", "co_min", "co_max", "co_avg", "co_median">>
 GridSum(t) == LET RECURSIVE R(_)
                   R(i) == IF i = 0 THEN 0 ELSE ASum(t[i]) + R(i - 1)
               IN R(Len(t))
+\* Infinite feature values are ordinary values of the order: they are coded +-InfV, beyond every finite value, so that count,
+\* minimum and maximum are judged by the same definition; sum, mean and median of a cell holding one are left open.
+InfV == 9998
+HasInf(e) == \E k \in DOMAIN e.obs : e.obs[k][3] \in {InfV, 0 - InfV}
+Judged(e) == IF HasInf(e) THEN {1, 3, 4} ELSE 1..6
 ClauseSum(e) ==
    IF e.raised THEN "raised"
    ELSE LET obs == [k \in DOMAIN e.obs |-> <<e.obs[k][1], e.obs[k][2], e.obs[k][3]>>]
             a == AcceptAssignment(e.g, obs, e.cells)
         IN IF a # "ok" THEN a
            ELSE IF GridSum(e.tagcount) # Len(e.obs) THEN "counts_do_not_add_up_to_number_of_observations"
-           ELSE LET bad == {<<o, r, c>> \in (1..6) \X (0..(e.g.nrow - 1)) \X (0..(e.g.ncol - 1)) :
+           ELSE LET bad == {<<o, r, c>> \in Judged(e) \X (0..(e.g.nrow - 1)) \X (0..(e.g.ncol - 1)) :
                                LET got == e.grids[o][r + 1][c + 1] IN
                                <<got[1], got[2], got[3]>> # AggDef(OpSeq[o], ValuesIn(obs, e.cells, r, c))}
                 IN IF bad = {} THEN "ok"
